@@ -15,6 +15,7 @@ import (
 // SpecCtx says how identifiers of a contract expression are resolved.
 type SpecCtx struct {
 	Fn       *ssa.Function
+	NoAlias  bool // names are not parameter names of Fn (interface contract at a call site)
 	Params   map[string]*Val // entry values
 	PTypes   map[string]types.Type
 	Results  []*Val
@@ -170,6 +171,9 @@ func (e *Engine) constSV(cn *types.Const) *SV {
 func (e *Engine) evalIdent(s *State, c *SpecCtx, name string) *SV {
 	if b, ok := c.Bound[name]; ok {
 		return b
+	}
+	if !c.NoAlias {
+		name = e.actualParamName(c.Fn, name)
 	}
 	switch name {
 	case "true", "false":
@@ -1044,4 +1048,47 @@ func (e *Engine) tryEvalBool(s *State, c *SpecCtx, x ast.Expr) (t string, ok boo
 		}
 	}()
 	return e.evalBool(s, c, x), true
+}
+
+// actualParamName maps a name used by fn's contract for a parameter (declared by position in
+// "func key(recv, a, b)") to the name the parameter has in the code now; also for the entry-value
+// spelling "a0". Names that are not contract parameter names come back unchanged.
+func (e *Engine) actualParamName(fn *ssa.Function, name string) string {
+	if fn == nil || e.C == nil {
+		return name
+	}
+	ct := e.C.Funcs[e.P.FuncKey(fn)]
+	if ct == nil || len(ct.ParamNames) == 0 {
+		return name
+	}
+	base, suffix := name, ""
+	for i, pn := range ct.ParamNames {
+		if i >= len(fn.Params) {
+			break
+		}
+		if pn == name || (strings.HasSuffix(name, "0") && pn == name[:len(name)-1]) {
+			if pn != name {
+				base, suffix = name[:len(name)-1], "0"
+			}
+			actual := fn.Params[i].Name()
+			if actual == base {
+				return name
+			}
+			// the old name must not mean something else in the code now
+			for _, p := range fn.Params {
+				if p.Name() == base {
+					return name
+				}
+			}
+			for _, b := range fn.Blocks {
+				for _, in := range b.Instrs {
+					if al, ok := in.(*ssa.Alloc); ok && al.Comment == base {
+						return name
+					}
+				}
+			}
+			return actual + suffix
+		}
+	}
+	return name
 }
